@@ -57,7 +57,7 @@ Definition py_mul (a b : val) : res val :=
 Definition py_div (a b : val) : res val :=
   match a, b with
   | VInt x, VInt y => if y =? 0 then Exc ZeroDivisionError else
-                      let f := q2f (if y <? 0 then - x else x) (Z.abs y) in
+                      let f := zdiv_f x y in
                       if f_is_inf f then Exc OverflowError else Ok (VFloat f)
   | VInt x, VFloat g => if f_eqb g zero || f_eqb g neg_zero then Exc ZeroDivisionError else
                         do f <- z2f_checked x; Ok (VFloat (PrimFloat.div f g))
